@@ -1,6 +1,8 @@
 """C14 — walk reconstruction uses every edge exactly as often as the solver decided.
 
-Proof: FP/Props/C14.lean (`reconstruct_euler`, `reconstruct_zero`) about FP/Model/Euler.lean.
+Proof: FP/Props/C14.lean (`reconstruct_euler`, `reconstruct_zero` about FP/Model/Euler.lean; `edges_buildResidual`,
+`walk_traverses_multiplicity`, `walk_traverses_rounded_values`, `pyRound_near`, `pyRound_int` about FP/Model/WalkDecode.lean,
+FP/Model/WalkDecodeRound.lean and FP/Model/Round.lean: from the solver's values through round() to the walk).
 Tie: K1 exact-output differential of `_reconstruct_eulerian_walk` / `_build_closed_walk_from_vertex`
 (real code on a bare subclass instance) and of `_build_residual_graph_for_layer` / `get_solution_walks`
 (real, constructed model objects with an injected assignment) against the Lean driver on generated
@@ -9,17 +11,25 @@ Eulerian s-t multigraphs and on malformed ones.
 import json, random
 from collections import Counter
 
-THEOREMS = ["FP.Props.C14.reconstruct_euler", "FP.Props.C14.reconstruct_zero"]
-IMPORTS = ["FP.Props.C14", "FP.Proofs.EulerExample"]
+THEOREMS = ["FP.Props.C14.reconstruct_euler", "FP.Props.C14.reconstruct_zero",
+            "FP.Props.C14.pyRound_near", "FP.Props.C14.pyRound_int", "FP.Props.C14.edges_buildResidual",
+            "FP.Props.C14.bal_multEdges", "FP.Props.C14.walk_traverses_multiplicity",
+            "FP.Props.C14.walk_traverses_rounded_values", "FP.Props.C14.Example.exMultST",
+            "FP.pyRound_near", "FP.pyRound_int", "FP.pyRound_near_toNat", "FP.WDM.edges_buildResidual",
+            "FP.WDM.edges_buildResidual_perm", "FP.WDM.walkOfMult_count", "FP.WDM.walkOfValues_count"]
+IMPORTS = ["FP.Props.C14", "FP.Proofs.EulerExample", "FP.Proofs.Round", "FP.Proofs.WalkDecodeMult"]
 RULE = ("Eulerian s-t multigraphs generated directly as superpositions of a random s-t walk and closed walks "
         "attached at visited vertices (self-loops, multiplicities>1, nested closed walks), adjacency order shuffled; "
         "plus a malformed stream (unbalanced / disconnected). A case is non-trivial iff it is a distinct adjacency "
         "structure on which the first greedy trail does not consume all edges (the splice loop runs).")
-MODEL_SCOPE = ("modelled: _reconstruct_eulerian_walk, _build_closed_walk_from_vertex, list building of "
-               "_build_residual_graph_for_layer; python round() of solver values is exercised with exact and "
-               "near-integral floats but not modelled")
+MODEL_SCOPE = ("modelled: _reconstruct_eulerian_walk, _build_closed_walk_from_vertex, _build_residual_graph_for_layer "
+               "including python round() of the solver values (FP.pyRound: nearest integer, ties to even, on the exact "
+               "rational value of the float) and range() of a negative count; K1.round / K1.residual_round tie the "
+               "rounding and the residual adjacency to the real code on ties, near-ties, negative and huge values")
 TRUSTED = ["python list.pop/index/slice-insert semantics as transcribed in FP/Model/Euler.lean"]
-ASSUMPTIONS = ["solver values are within 0.5 of the intended integer multiplicity (round())"]
+ASSUMPTIONS = ["walk_traverses_rounded_values: solver values are strictly within 0.5 of the intended integer multiplicity "
+               "(a hypothesis of the theorem, no longer an unmodelled step); solver values are finite floats (round() of "
+               "nan/inf raises in python and is outside the model)"]
 
 
 def make_stub(fp, nodes, edges, source, sink):
@@ -134,6 +144,138 @@ def run_case(ctx, nodes, adj, suite, source="S", sink="T"):
     return inp, impl
 
 
+def frac_str(x):
+    from fractions import Fraction
+    f = Fraction(x)
+    return f"{f.numerator}/{f.denominator}"
+
+
+def nearest_even(x):
+    """independent oracle for the text 'nearest integer, ties to even' in exact rational arithmetic (no round())"""
+    from fractions import Fraction
+    f = Fraction(x)
+    lo = f.numerator // f.denominator
+    d = f - lo
+    if d < Fraction(1, 2):
+        return lo
+    if d > Fraction(1, 2):
+        return lo + 1
+    return lo if lo % 2 == 0 else lo + 1
+
+
+def draw_round_float(rng):
+    """(label, float) — ties, near-ties, near-integers, huge, tiny, negative zero"""
+    import math
+    kind = rng.choice(["tie", "tie", "near-tie", "near-int", "big52", "big53", "tiny", "negzero", "uniform", "int"])
+    k = rng.randint(-60, 60)
+    if kind == "tie":
+        k = rng.choice([k, rng.randint(-10**6, 10**6), rng.randint(-2**40, 2**40)])
+        return f"tie/{'even' if k % 2 == 0 else 'odd'}/{'neg' if k < 0 else 'nonneg'}", k + 0.5
+    if kind == "near-tie":
+        x = k + 0.5
+        for _ in range(rng.randint(1, 3)):
+            x = math.nextafter(x, rng.choice([-math.inf, math.inf]))
+        return "near-tie", x
+    if kind == "near-int":
+        eps = rng.choice([1e-9, 1e-7, 0.3, 0.49, 0.4999, 0.49999999999]) * rng.choice([1, -1])
+        return "near-int", k + eps
+    if kind == "big52":
+        b = 2.0 ** 52 + rng.randint(-6, 6) * 0.5
+        return "around 2^52", b * rng.choice([1, -1])
+    if kind == "big53":
+        b = 2.0 ** 53 + rng.randint(-6, 6)
+        return "around 2^53", rng.choice([b, -b, b * 2 ** rng.randint(1, 200)])
+    if kind == "tiny":
+        return "tiny", rng.choice([5e-324, -5e-324, 1e-300, -1e-300, 2.2250738585072014e-308, 1e-17, -1e-17])
+    if kind == "negzero":
+        return "zero", rng.choice([-0.0, 0.0])
+    if kind == "int":
+        return "integral float", float(k)
+    return "uniform", rng.uniform(-50, 50)
+
+
+def run_round_suite(ctx, rng, n):
+    """python round(float) against FP.pyRound on the exact rational value of the float"""
+    batch = []
+    for _ in range(n):
+        batch.append(draw_round_float(rng))
+        if len(batch) == 100:
+            run_round_batch(ctx, batch); batch = []
+    if batch:
+        run_round_batch(ctx, batch)
+
+
+def run_round_batch(ctx, batch):
+    model = ctx.driver.call({"op": "round.py", "xs": [frac_str(x) for _, x in batch]})
+    for j, (label, x) in enumerate(batch):
+        impl = round(x)
+        r = range(impl)                      # len() of a huge range overflows ssize_t; an empty range is falsy
+        cnt = len(r) if abs(impl) < 2 ** 62 else (r.stop - r.start if r else 0)
+        inp = {"x": repr(x), "fraction": frac_str(x)}
+        ctx.rep.count("K1.round", inp["fraction"], nontrivial=(x != int(x)), hist=[label])
+        ctx.rep.cov["traces_validated_against_impl"] += 1
+        if impl != model["rounded"][j] or cnt != model["counts"][j]:
+            ctx.disagree("K1.round", inp, [impl, cnt], [model["rounded"][j], model["counts"][j]])
+        ctx.rep.cov["oracle_evaluations"] += 1
+        if impl != nearest_even(x):
+            ctx.violation(f"round({x!r}) = {impl} is not the nearest integer with ties to even", inp, site="round")
+
+
+def run_residual_case(ctx, rng):
+    """_build_residual_graph_for_layer of the real class (bare subclass instance) on non-integral values — exact ties,
+    0.4999, negative values, missing keys, other layers' keys — against buildResidual on pyRound multiplicities"""
+    n = rng.randint(1, 5)
+    ints = rng.random() < 0.3            # integer node ids: the keys of edge_vars_sol are str(u), str(v)
+    nodes = list(range(n)) if ints else [f"v{i}" for i in range(n)]
+    rng.shuffle(nodes)
+    pairs = [(u, v) for u in nodes for v in nodes]
+    rng.shuffle(pairs)
+    edges = pairs[:rng.randint(0, len(pairs))]
+    layer = rng.randint(0, 2)
+    stub = make_stub(ctx.fp, nodes, edges, nodes[0], nodes[-1])
+    sol, vals, labels = {}, [], set()
+    for (u, v) in edges:
+        r = rng.random()
+        if r < 0.1:
+            vals.append(None); labels.add("missing key")
+            sol[(str(u), str(v), layer + 1)] = 3.0      # another layer's value must not leak
+            continue
+        k = rng.randint(0, 3)
+        if rng.random() < 0.15:          # size thresholds of fixed-width integer types (a cycle used hundreds of times)
+            k = rng.choice([127, 128, 129, 150, 255, 256, 257, 300, 32767, 32768, 65535, 65536]); labels.add("multiplicity >= 127")
+        if r < 0.45:
+            x = rng.choice([k + 0.5, -0.5, -1.5, -2.5]); labels.add("tie")
+        elif r < 0.8:
+            x = k + rng.choice([0.4999, -0.4999, -1e-9, 1e-9, 0.3, -0.3, 0.49999999999]); labels.add("near")
+        else:
+            x = rng.choice([float(k), k, -float(k), -0.0]); labels.add("integral")
+        sol[(str(u), str(v), layer)] = x
+        vals.append(x)
+    stub.edge_vars_sol = sol
+    impl = stub._build_residual_graph_for_layer(layer)
+    impl_l = [[str(v), [str(w) for w in impl[v]]] for v in impl]
+    model = ctx.driver.call({"op": "residual.round", "nodes": [str(v) for v in nodes],
+                             "edges": [[str(u), str(v)] for (u, v) in edges],
+                             "values": [None if x is None else frac_str(x) for x in vals]})
+    inp = {"nodes": [str(v) for v in nodes], "edges": [[str(u), str(v)] for (u, v) in edges], "layer": layer,
+           "values": [None if x is None else repr(x) for x in vals]}
+    ctx.rep.count("K1.residual_round", [inp["nodes"], inp["edges"], inp["values"]],
+                  nontrivial=any(x is not None and x != int(x) for x in vals), hist=sorted(labels) or ["no edge"])
+    ctx.rep.cov["traces_validated_against_impl"] += 1
+    if impl_l != model["adj"]:
+        ctx.disagree("K1.residual_round", inp, impl_l, model["adj"])
+    # independent oracle: every graph edge occurs max(0, nearest-even(value)) times, nothing else occurs
+    ctx.rep.cov["oracle_evaluations"] += 1
+    want = Counter()
+    for (u, v), x in zip(edges, vals):
+        if x is not None and nearest_even(x) > 0:
+            want[(u, v)] = nearest_even(x)
+    got = Counter((u, w) for u, l in impl.items() for w in l)
+    if got != want or list(impl) != list(nodes):
+        ctx.violation(f"residual graph {impl} does not hold every edge round(value) times", inp,
+                      site="_build_residual_graph_for_layer")
+
+
 def run_glue_case(ctx, rng):
     """get_solution_walks of a REAL model object (kFlowDecompCycles / kPathCoverCycles / kLeastAbsErrorsCycles, built by their
     constructors, never solved) on an injected per-layer assignment: rounding of noisy values, str keys, layers, the edges
@@ -195,7 +337,8 @@ def run_glue_case(ctx, rng):
     for (u, v) in m.G.edges():
         for i in range(k):
             x = mult(u, v, i)
-            noise = rng.choice([0, 0, 1e-7, -1e-7, 0.3, -0.3]) if x > 0 else rng.choice([0, 1e-9, 0.2])
+            noise = (rng.choice([0, 0, 1e-7, -1e-7, 0.3, -0.3, 0.4999, -0.4999, 0.49999999999]) if x > 0
+                     else rng.choice([0, 1e-9, 0.2, -1e-9, -0.3, 0.4999, -0.4999, -0.0]))
             sol[(str(u), str(v), i)] = x + noise
     m.edge_vars_sol = {}
     m.solver.get_values = lambda _vars: dict(sol)
@@ -257,6 +400,10 @@ def run(ctx):
         run_case(ctx, nodes, adj, "K1.malformed")
     for it in range(ctx.n(300, 5000)):
         run_glue_case(ctx, rng)
+    # python round() itself, then the residual graph of the real class on non-integral values
+    run_round_suite(ctx, rng, ctx.n(3000, 60000))
+    for it in range(ctx.n(1500, 30000)):
+        run_residual_case(ctx, rng)
 
 
 def search(ctx):
